@@ -38,3 +38,11 @@ open UtilModel
 #print axioms UtilModel.C12_accepted_lifo
 #print axioms UtilModel.C12_accepted_linkedlist
 #print axioms UtilModel.acceptsH_sound
+#print axioms UtilModel.rejectH_sound
+#print axioms UtilModel.OLTS.accRunH_restrict
+#print axioms UtilModel.complete_lifo_allCands
+#print axioms UtilModel.not_complete_lifo
+#print axioms UtilModel.complete_lifo_reduced
+#print axioms UtilModel.reject_sound_lifo
+#print axioms UtilModel.complete_linkedlist
+#print axioms UtilModel.reject_sound_linkedlist
